@@ -65,6 +65,7 @@ def frame(variant):
     df["o"] = pd.Categorical(df["f"], categories=["c", "a", "b"], ordered=True)
     df["xb"] = [3e7 + v for v in (0.25, -1.5, 0.75, 2.0, -0.5, 1.25, -2.25, 0.0)]  # level huge compared with the spread
     df["ib"] = np.array([2 ** 53 + 1 + 2 * i for i in (3, 0, 5, 1, 7, 2, 6, 4)], dtype="int64")  # integers a float64 cannot hold
+    df["xt"] = [1.0, 2.0, 2.0, 3.0, 1.0, 3.0, 2.0, 0.0]  # tied values
     df["cs"] = ["no", "No", "yes", "no", "yes", "No", "yes", "no"]  # spellings that differ only in case are different values
     df["u"] = ["u5", "u2", "u8", "u1", "u7", "u3", "u6", "u4"]  # one observation per level, rows not in level order
     df["i8"] = np.array([100, -7, 25, 3, -120, 64, 9, 11], dtype="int8")
@@ -128,6 +129,7 @@ def pool(tier):
         "y ~ (0 + f | g + h) + (1 | h)", "y ~ (1 | g) + (0 + f | g + h)", "y ~ (f | g + h)", "y ~ (0 + f | g/h) + (1 | g)", "y ~ (0 + o | h + g) + (x | g)",
         "y ~ f/g", "y ~ (f + g):h + f", "y ~ f/x + (f | g)", "y ~ (f + g)*scale(x)",
         "y ~ (1 | g:h) + (0 + x | h:g)", "y ~ (x | g:h) + (0 + f | h:g)", "y ~ (1 | I(k):g)", "y ~ (x | np.floor(z))", "y ~ (0 + x | I(k)) + (1 | np.round(x))",
+        "y ~ bs(xt, df=4)", "y ~ poly(xt, 2) + (0 + bs(xt, df=3) | g)", "y ~ scale(xt):f",
         "y ~ binary(cs) + x", "y ~ cs + (1 | cs)", "y ~ 0 + B(cs):x",
         "y ~ 0 + u", "y ~ x + (1 | u)", "y ~ (0 + x | u) + f",
         "y ~ 0 + ib", "y ~ 0 + ib + k", "y ~ 0 + C(k):ib", "y ~ 0 + k + (0 + ib | g)", "y ~ i8:j8", "y ~ 0 + i8 + i8:j8 + (0 + i8:j8 | g)", "y ~ i8*k",
